@@ -103,6 +103,13 @@ PROPS["C18"] = {
     "assumptions": ["policy versions come from ParseVersion (latest or v1.N) - C05/C17"],
 }
 
+PROPS["C17"] = {
+    "streams": [{"name": "c17", "n_quick": 800, "n_thorough": 20000}],
+    "level_text": "C17_load / C17_accept_iff: load accepts exactly the documents that are a PodSecurityConfiguration of a served version with no unknown or duplicated member at any level, and yields the stated values with omitted (or empty) defaults = privileged/latest; C17_version_independent / C17_unserved_rejected; C17_empty_is_all_defaults; C17_validate_iff: validation has no errors iff the six defaults parse and namespaces are unique DNS-1123 labels, runtime classes unique DNS-1123 subdomains, user names non-empty and unique (validators modelled character by character, incl. the 63/253 limits); C17_errors_located; C17_chain: valid => ToPolicy succeeds and an unlabelled namespace resolves to exactly that policy. Each abstract document is rendered as JSON and as YAML, loaded by load.LoadFromData, validated, and an Admission is completed/validated from it and its default policy observed.",
+    "level_note": "Trusted: Coq kernel; Model/Config.v (strict decoding is modelled as 'no unknown / duplicated member' over an abstract member list; the real strict codec, YAML->JSON conversion and scheme conversion are exercised by the stream, not modelled); the harness renderers. Hypothesis well_tagged: an abstract 'unknown' member does not carry one of the four reserved names (an artefact of the abstraction; C17_accept_iff_needs_hyp). No axioms.",
+    "assumptions": ["documents are JSON objects / YAML mappings with string and string-list values (other shapes are the 'malformed' class)"],
+}
+
 # properties not yet claimed (kept current as checks are added)
 NOT_APPLICABLE = [
     {"property_id": p, "reason": "check under construction in this session: model/theorems not yet committed (see DESIGN.md section 7 for the planned statement)"}
